@@ -308,8 +308,8 @@ func main() {
 	nProg, nVal := 3, 3
 	maxTruncLen, maxCorruptPos := 300, 16
 	if thorough {
-		nProg, nVal = 22, 5
-		maxTruncLen, maxCorruptPos = 700, 60
+		nProg, nVal = 14, 4
+		maxTruncLen, maxCorruptPos = 600, 40
 	}
 	st := &stats{Schema: map[string]int{}, CaseKinds: map[string]int{}, ReadKinds: map[string]int{}, ObsFast: map[string]int{},
 		ObsStd: map[string]int{}, OptionSets: map[string]string{"f0": "(defaults)"},
